@@ -52,6 +52,32 @@ CLAIMS = {
             "tree-sitter parses are the reference; Legal is deliberately looser than the algorithm where the "
             "documentation is silent (issue-1688 empty child list, optional anonymous tokens after an ellipsis)",
             "DESIGN.md section 3 C03"),
+    "C04": ("model_checking",
+            "TLA+ transcription of the environment threading of every rule operator (Rule.tla Eval) model-checked "
+            "against a copy-per-attempt semantics (EvalClean) over TLC-enumerated rule programs; the same programs run "
+            "in the real code and verdict + exposed bindings judged by TLC",
+            "Rule.tla threads the MetaVarEnv through pattern/all/any/not/relations/nthChild.ofRule/matches exactly as the "
+            "code does (Cow copies, commit points) and, in mode 'clean', gives every attempt that can fail a private copy. "
+            "MC_Rules checks impl = clean for every rule program of RuleGen (depth <= 3, variables shared across "
+            "operators) on trees whose sibling orders are permuted. Every program is then loaded by the real code "
+            "(DeserializeEnv + RuleConfig) and run on every node; Trace_Rules requires verdict and exposed single/multi "
+            "bindings to equal the clean semantics (guarded by agreement of the pattern atoms with the matcher oracle) "
+            "and reports disagreement with the transcription as drift.",
+            "trees are real tree-sitter parses; rules with nthChild.ofRule that binds variables are outside the judgement "
+            "(the statement is silent on which sibling's bindings are exposed); bounded rule depth",
+            "DESIGN.md section 3 C04"),
+    "C05": ("model_checking",
+            "reference semantics Sem (Rule.tla) vs transcribed evaluation Eval model-checked over TLC-enumerated rule "
+            "programs x real trees; real per-node verdicts of the same programs (23 languages) judged against Sem by TLC",
+            "Sem is a plain boolean semantics of all/any/not, inside/has/precedes/follows with stopBy neighbor/end/rule "
+            "(inclusive) and field, kind, regex (finite text sets), range, nthChild (An+B, reverse, ofRule) and matches, "
+            "written from the rule reference. MC_Rules checks Eval = Sem on every node for every variable-disjoint rule "
+            "program of RuleGen; the same programs are compiled from YAML by the real code and run on every node of "
+            "carrier trees and of corpus subtrees in all languages; Trace_Rules compares each verdict with Sem. Pattern "
+            "atoms are read from an oracle (the pattern alone on the node), so the judgement concerns the combinators.",
+            "restricted, as the property is, to trees without zero-width nodes and to field names on which tree-sitter's "
+            "cursor and child_by_field_name agree and that label at most one child",
+            "DESIGN.md section 3 C05"),
 }
 
 NOT_YET = "check not built yet in this round (construction order in DESIGN.md section 9); not claimed until it runs"
